@@ -208,7 +208,14 @@ func (e *Env) Observe(k string, v interface{}) {
 func (e *Env) Fail(key, what string, cs interface{}, ops []string, observed, expected interface{}) {
 	r := e.Result
 	r.mu.Lock()
-	if len(r.Failures) < 50 {
+	perKey := 0
+	for _, f := range r.Failures {
+		if f.Key == key {
+			perKey++
+		}
+	}
+	// capped per key, so that many instances of one (possibly known) failure cannot crowd out a different one
+	if perKey < 5 && len(r.Failures) < 400 {
 		if len(what) > 2000 {
 			what = what[:2000]
 		}
